@@ -24,7 +24,7 @@ CHECKS = {
     "C05": ("Theorems (validated Euler program = states + dt*rhs slot by slot in every commutative carrier; dt = 0 returns the "
             "states under ring laws; the mirror's Euler function is valid and correct for every accepted item list) + correspondence: valid_euler/valid_rhs on the exported skeletons; direct oracle "
             "euler == s + dt*rhs bit for bit over dt in {0, tiny, large, negative}, inputs unmodified, all scheme aliases in random "
-            "process histories, random argument orders, numpy + jax + C.",
+            "process histories, random argument orders, numpy + jax + C, a directed model with 13 states.",
             "Gallina model + verified validator on generated code + metamorphic execution"),
     "C12": ("Theorems (two validated programs of one model return the same array; a validated body never reads an unbound name; "
             "for the mirror generator removal never changes rhs, for every well-formed model) + correspondence: rhs / Euler with and "
@@ -56,13 +56,13 @@ CHECKS = {
     "C09": ("Theorems (every layout table and generated function of the mirror is invariant under any permutation of the lists "
             "the model consists of, i.e. under any set iteration order; name sorting is a function of the multiset; the name order is "
             "a total order) + correspondence: layout in fresh processes = hash-free mirror; direct: byte digests of numpy/jax/C code "
-            "and layouts across fresh processes with different PYTHONHASHSEED, in-process histories, held scheme functions.",
+            "and layouts across fresh processes with different PYTHONHASHSEED (incl. a text whose assignments read only constants defined further down), in-process histories, held scheme functions.",
             "Gallina model with permutation-invariance theorems + cross-process differential execution"),
     "C10": ("Theorems (permuted_text_same_code: if the atomic insertions of two item lists are a permutation of each other - blocks, "
             "entries, lines permuted - and the first loads, the second loads to an equivalent model with identical statement order, slot "
             "layout and generated rhs / monitor_values / Euler functions of the mirror; definitions are found by name) + correspondence: "
             "loader mirror on the items of every permuted text; direct: ==, bytes of numpy / C / jax code and layouts for permuted "
-            "blocks / entries / lines; one known finding (header-less block absorbed, a grammar-level effect).",
+            "blocks / entries / lines (every other model with units and descriptions on some of its declarations); one known finding (header-less block absorbed, a grammar-level effect).",
             "Gallina loader model with a permutation-invariance proof + metamorphic execution on permuted texts"),
     "C13": ("Theorems (the mirror's missing_values is valid and returns the requested meanings for every well-formed model and request; "
             "missing variables = names used but not defined; the halves of a split contain every state, a state in both "
@@ -82,7 +82,7 @@ CHECKS = {
             "which int embeds as a ring; the reals are one; computed refutations for (1/4)*x, (2*3)/4, fmod) + correspondence: every "
             "right-hand side of the generated C, parsed with typed constants, evaluated by the extracted typed evaluator, must equal "
             "what the gcc/clang-compiled unit computes; direct: compile in default mode, init functions, rhs/monitor_values/schemes vs "
-            "reference meaning and numpy module, a sub-model with missing variables compiled and compared with its numpy code; mismatches the typed evaluator predicts for integer quotients of the model text are the one known finding.",
+            "reference meaning and numpy module, a sub-model with missing variables compiled and compared with its numpy code, guards whose untaken branch is not finite at the point; mismatches the typed evaluator predicts for integer quotients of the model text are the one known finding.",
             "Gallina typed C-expression semantics with soundness theorem + compile-and-run differential execution"),
     "C03": ("Theorems (a validated function returns, under the jax convention _values_i + returned list, an array of the declared "
             "length equal to the numpy result; an unassigned declared slot is an error) + correspondence: jax skeletons pass the same "
@@ -95,7 +95,7 @@ CHECKS = {
             "derivative over the reals (Coquelicot) on the smooth fragment; rhs and Jacobian are produced for every model that has a "
             "statement order, whatever the dependency depth; computed: chains of depth 20 / 40, "
             "accepted by the repaired bound, as is depth 41) + correspondence: mirror's rhs_matrix / jacobian evaluated by the extracted "
-            "evaluator vs sympytools lambdified; direct: free symbols, values vs generated rhs, Jacobian vs central differences.",
+            "evaluator vs sympytools lambdified; direct: free symbols, values vs generated rhs, Jacobian vs central differences; state derivatives read by state derivatives.",
             "Gallina model of rhs_matrix with meaning-preservation theorem, D_sound over R + differential / finite-difference execution"),
     "C16": ("Theorems (the nested combination agrees with the original at regular points and gives the replacement at a singular "
             "point, for any number of singularities and every carrier with selection laws; nothing changes without removable "
@@ -125,7 +125,7 @@ CHECKS = {
             "referent's unique name preserves the meaning under the transported environment; passes compose; a pass that matches nothing "
             "changes nothing) + correspondence: no converted expression refers to a name the converted model does not define; direct: shipped "
             ".mmt / .cellml files and generated Myokit models (nested variables with equal local names, names clashing with sympy names incl. pi, "
-            "equal local state names in two components, if(), all operators): states / initial values / constants under unique names, generated rhs "
+            "equal local state names in two components, two levels of nesting with re-used local names, if(), all operators): states / initial values / constants under unique names, generated rhs "
             "after the documented save-and-reload step vs Model.evaluate_derivatives at 3 states, and the conversion back to Myokit.",
             "Gallina renaming model (partial) + differential execution against Myokit's evaluator"),
     "C18": ("Theorems (thin model: the effective options are the command-line options overridden by the keys present in the configuration, "
